@@ -26,7 +26,8 @@ from ._h_A import (FactReach, Facts, branch_succ, loop_breaks, nodes_of_stmts, n
                    is_const, stmts_in, never_returns, inliner, expander, bind_call, call_arg,
                    real_loops, Owners, followed, returns_of, value_at, strip_wrappers, atom_of,
                    reaching_defs, built_list, values_at, need, opaque_parts, opaque_calls,
-                   same_or_opaque, opaque_tests, undissolved, is_frame_reset)
+                   same_or_opaque, opaque_tests, undissolved, is_frame_reset, typed_handler_noise,
+                   reach_pruned)
 
 EXPLANATION = (
   "Decides the structural legs of the out-of-order protocol that keeps a formula from ever being "
@@ -180,8 +181,23 @@ class Scan(object):
     if isinstance(e, ast.Name) and e.id in getattr(self, "done_vars", ()):
       return True
     e = self.ex.expand(e)
+    if isinstance(e, ast.Call) and isinstance(e.func, ast.Attribute) and \
+        e.func.attr in ("setdefault", "get") and \
+        endswith(dotted(e.func.value), "_recompute_done_map") and e.args and \
+        text(e.args[0]) == self.p_node:
+      return True         # get-or-create spelling of the same entry
     return isinstance(e, ast.Subscript) and endswith(dotted(e.value), "_recompute_done_map") and \
         text(e.slice) == self.p_node
+
+  def noise(self, cfg):
+    """exceptional edges into the RequestingError / OrderError handlers around the evaluation that
+    do not come from the evaluation itself"""
+    evals = self.eval_nodes(cfg)
+    out = set()
+    for t in stmts_in(self.loop.body, ast.Try):
+      if evals & nodes_of_stmts(cfg, t.body):
+        out |= typed_handler_noise(cfg, t, evals)
+    return out
 
   def eval_nodes(self, cfg):
     return {n.id for n in cfg.nodes if any(c is self.eval for c in calls_in(n.exprs))}
@@ -452,6 +468,7 @@ def r1_scan(run, w, sc):
   evals = sc.eval_nodes(cfg)
   fr = Facts(cfg, set(just) | {sc.flag, "allow_evaluation"}, ex=ex,
              noreturn=lambda n: never_returns(w, fn, n))
+  fr.ignore_edges = sc.noise(cfg)
   seen = fr.run([(s, {}) for s in starts], stop={head} | evals)
   arrivals = [f for f in seen.get(head, [])]
   # arrivals at the head by an exceptional edge do not exist (the head is a `for`); all are skips
@@ -1105,7 +1122,8 @@ def r5_done_after_store(run, w, sc):
     run.ob(R5, fn.qualname, "<done set>.add(<row>)", "the row marked done is the row just evaluated",
            len(c.args) == 1 and sc.ex.norm(c.args[0]) == sc.row, fi=fn.fi, node=c, nontrivial=False)
     # completed evaluation dominates the marking (within the iteration)
-    ok = cfg.dominated_by(a, evals) and \
+    noise = sc.noise(cfg)
+    ok = a not in reach_pruned(cfg, {cfg.entry.id}, removed=evals, ignore_edges=noise) and \
         a in cfg.reach_after(evals, removed={head}, completed=True)
     run.ob(R5, fn.qualname, "<done set>.add(<row>) after self._recompute_one_cell(...)",
            "only an evaluated cell is marked done", ok, fi=fn.fi, node=c)
